@@ -64,6 +64,7 @@ def run_case(c):
         if before is not None:
             caps["steps"][k] = {"dl": before[0].tolist(), "d": before[1].tolist(), "du": before[2].tolist(), "b": before[3].tolist(), "x": b.tolist()}
         caps["last"] = b.copy()
+        caps["size"] = len(b)
         caps["far_sum"] = caps.get("far_sum", 0.0) + float(b[-2] - b[-1])     # the heat that crosses into the fixed far-field cell
         caps["all_T0"] = caps.get("all_T0", []) + [float(b[0])]
         caps["n"] = k + 1
@@ -100,7 +101,7 @@ def run_case(c):
     out = {"ok": True, "t_end_reported": t_end, "t_s": float(rn.t_s), "n_cells": n, "nsteps": nsteps, "Rb": Rb, "Rf_half": Rf, "k_soil": c["k_soil"],
            "r_in": cells[P.R_IN].tolist(), "r_out": cells[P.R_OUT].tolist(), "r_center": cells[P.R_CENTER].tolist(),
            "k": cells[P.K].tolist(), "cap": Cap.tolist(), "cond": cond, "steps": caps["steps"],
-           "stored": stored, "injected": 120.0 * nsteps, "leaked": 120.0 * cond[-1] * caps.get("far_sum", 0.0),
+           "stored": stored, "injected": 120.0 * nsteps, "system_size": int(caps.get("size", 0)), "leaked": 120.0 * cond[-1] * caps.get("far_sum", 0.0),
            "T_last": T.tolist(), "T0_series": caps["all_T0"],
            "lntts": rn.lntts.tolist(), "g": rn.g.tolist(), "g_bhw": rn.g_bhw.tolist(),
            "fluid_mass": float(np.sum(Cap[:3] * 120.0)), "fluid_mass_expected": 2 * math.pi * rp_in ** 2 * fluid.rhoCp,
@@ -127,8 +128,15 @@ def run_case(c):
         bounds = out["regions"]
         cnts = out["counts"]
         idx = 0
-        for (a, bnd), cnt in zip(bounds, cnts):
-            regs.append((a, bnd, cnt, float(cells[P.K, idx]), float(cells[P.RHO_CP, idx])))
+        # the layered problem from its physical description, NOT from the implementation's cell table: a well-mixed fluid core with the
+        # thermal mass of the fluid in both legs, a film layer carrying R_f/2, pipe and grout layers that together carry R_b* - R_f/2
+        # (their own heat capacities), soil.  Radii are the model's documented layer radii.
+        k_film = math.log(rn.r_in_tube / rn.r_convection) / (2 * math.pi * Rf)
+        k_pg = math.log(rn.r_borehole / rn.r_in_tube) / (2 * math.pi * (Rb - Rf))
+        c_fluid = 2.0 * rp_in ** 2 * fluid.rhoCp / (rn.r_convection ** 2 - rn.r_fluid ** 2)
+        props = [(200.0, c_fluid), (k_film, 1.0), (k_pg, 1542000.0), (k_pg, c.get("rhocp_grout", 3901000.0)), (c["k_soil"], c.get("rhocp_soil", 2343493.0))]
+        for ((a, bnd), cnt), (kk_, cc_) in zip(zip(bounds, cnts), props):
+            regs.append((a, bnd, cnt, float(kk_), float(cc_)))
             idx += cnt
         # the reference runs for the period the implementation REPORTS (its last ln(t/ts)), not for its number of solves
         ref_steps = max(1, int(round(t_end / 120.0)))
